@@ -513,3 +513,138 @@ def no_state_across_calls(ctx, rep, rule, funcs):
                 rep.fail(rule, "%s:%d global state" % (f.module.relpath, node.lineno), f.qualname,
                          "`%s`" % src(node), "the result depends on what previous calls stored in a global")
     rep.ok(rule, "%d functions: no mutable default, no global" % len([f for f in funcs if f]))
+
+
+# ======================================================= synchronous wrappers
+def sync_wrapper(ctx, rep, rule, name):
+    """the synchronous entry point `name()` is transparent: every return is the value of driving the
+    coroutine `co_<name>()` of the same object to completion, once, and nothing it raises is caught"""
+    from ..graphmodel import GraphModel
+    r = ctx.roles
+    f = ctx.prog.supplier(r.sched, name)
+    co = 'co_' + name
+    if f is None or f.is_async:
+        rep.error(rule, "synchronous wrapper %s not found" % name)
+        return
+    fn = f.qualname
+    an, ip, out = ctx.explore(f, model=GraphModel)
+
+    def driven(t):
+        """the coroutine term driven to completion by t, or None"""
+        if t[0] == 'mcall' and t[2] == 'run_until_complete' and len(t[3]) == 1:
+            return t[3][0]
+        if t[0] == 'call' and t[1] in ('asyncio.run',) and len(t[2]) == 1:
+            return t[2][0]
+        return None
+
+    def is_own(x):
+        if x is None:
+            return False
+        if x[0] == 'mcall' and x[1] == T.SELF and x[2] == co:
+            return True
+        if x[0] == 'coro' and x[1].endswith('.' + co) and dict(x[2]).get('self') == T.SELF:
+            return True
+        return False
+    n = 0
+    for st, val, node in out.ret:
+        n += 1
+        rep.check(is_own(driven(val)), rule, "%s returns what %s() returned" % (ip.where(node), co), fn,
+                  "`%s` returns %s" % (src(node)[:80], T.show(val, 4)[:120]),
+                  "the value of %s() is not the value of %s(): the verdict is altered or lost" % (name, co), trace(st))
+    for st in out.nxt:
+        n += 1
+        rep.fail(rule, "%s falls off its end" % fn, fn, "end of function reached without returning the verdict",
+                 "%s() returns None whatever happened" % name, trace(st))
+    rep.need(rule, n, 1, "exits of %s" % fn)
+    # the drive is not protected by a handler, and happens once
+    drives = [c for c in walk_local(f.node) if isinstance(c, ast.Call) and (
+        (isinstance(c.func, ast.Attribute) and c.func.attr == 'run_until_complete') or dotted(c.func) == 'asyncio.run')]
+    rep.check(len(drives) == 1, rule, "%s drives the coroutine once" % fn, fn,
+              "%d calls of run_until_complete / asyncio.run" % len(drives),
+              "the run is performed twice, or not at all")
+    for c in drives:
+        for t in walk_local(f.node):
+            if isinstance(t, ast.Try) and t.handlers and any(c is x for b in t.body for x in ast.walk(b)):
+                rep.fail(rule, "%s:%d the drive is not inside a handler" % (f.module.relpath, c.lineno), fn,
+                         "`%s` runs under `try ... except %s`" % (src(c)[:60], ", ".join(
+                             src(h.type) if h.type is not None else "<bare>" for h in t.handlers)),
+                         "an exception of the run (e.g. a critical failure re-raised by a nested scheduler, a "
+                         "cancellation) is swallowed or replaced by the synchronous wrapper")
+        # the coroutine is not wrapped in another bound
+        arg = c.args[0] if c.args else None
+        direct = isinstance(arg, ast.Call) and isinstance(arg.func, ast.Attribute) and arg.func.attr == co \
+            and isinstance(arg.func.value, ast.Name) and arg.func.value.id == 'self'
+        rep.check(direct, rule, "%s:%d drives %s() itself" % (f.module.relpath, c.lineno, co), fn,
+                  "`%s`" % src(c)[:100], "the coroutine is wrapped (another timeout, a shield, a task): the run no "
+                  "longer behaves as %s()" % co)
+
+
+# ======================================================= class-level mutable state
+def no_shared_class_state(ctx, rep, rule, classes=None):
+    """a mutable object bound at class level (list / dict / set literal or constructor) is shared by every
+    instance: it must not be mutated through an instance, directly or through an alias (`d[k] = self.X;
+    d[k].append(...)`). Copies (`list(self.X)`, `.copy()`, `sorted`, slicing `[:]`) are fresh objects."""
+    p = ctx.prog
+    classes = classes or list(p.classes.values())
+    shared = {}
+    for c in classes:
+        for s in c.node.body:
+            if isinstance(s, ast.Assign) and len(s.targets) == 1 and isinstance(s.targets[0], ast.Name):
+                v = s.value
+                if isinstance(v, (ast.List, ast.Dict, ast.Set, ast.ListComp, ast.DictComp, ast.SetComp)) or (
+                        isinstance(v, ast.Call) and isinstance(v.func, ast.Name) and v.func.id in MUTABLE_CALLS):
+                    shared.setdefault(s.targets[0].id, []).append((c, s))
+    nsite = 0
+    MUT = {'append', 'extend', 'insert', 'add', 'update', 'remove', 'discard', 'pop', 'clear', 'sort', 'reverse',
+           'setdefault', 'popitem', 'difference_update', 'intersection_update', 'symmetric_difference_update'}
+    for f in p.all_functions():
+        if f.cls is None or not shared:
+            continue
+
+        def is_shared(e):
+            return isinstance(e, ast.Attribute) and e.attr in shared and isinstance(e.value, ast.Name) and (
+                e.value.id in ('self', 'cls') or e.value.id in p.classes)
+        tainted = {}          # unparsed expression -> the class attribute it aliases
+        stmts = [n for n in walk_local(f.node) if isinstance(n, (ast.Assign, ast.AugAssign, ast.Expr))]
+        stmts.sort(key=lambda n: (n.lineno, n.col_offset))
+        for s in stmts:
+            def alias_of(e):
+                if is_shared(e):
+                    return e.attr
+                return tainted.get(ast.unparse(e))
+            # mutations
+            for c in ast.walk(s):
+                hit = None
+                if isinstance(c, ast.Call) and isinstance(c.func, ast.Attribute) and c.func.attr in MUT:
+                    hit = alias_of(c.func.value)
+                    what = c
+                elif isinstance(c, ast.Subscript) and isinstance(c.ctx, (ast.Store, ast.Del)):
+                    hit = alias_of(c.value)
+                    what = c
+                if hit:
+                    nsite += 1
+                    cls_, st_ = shared[hit][0]
+                    rep.fail(rule, "%s:%d class-level mutable `%s` mutated" % (f.module.relpath, c.lineno, hit),
+                             f.qualname, "`%s` mutates `%s.%s = %s`, an object shared by every instance"
+                             % (src(what)[:80], cls_.name, hit, src(st_.value)[:40]),
+                             "what one job (or one call) records leaks into every other job: e.g. a style added for "
+                             "one job shows on all the jobs drawn after it")
+            if isinstance(s, ast.AugAssign):
+                a = alias_of(s.target)
+                if a:
+                    nsite += 1
+                    cls_, st_ = shared[a][0]
+                    rep.fail(rule, "%s:%d class-level mutable `%s` mutated" % (f.module.relpath, s.lineno, a),
+                             f.qualname, "`%s` updates `%s.%s` in place" % (src(s)[:80], cls_.name, a),
+                             "state shared by every instance changes")
+            # propagation
+            if isinstance(s, ast.Assign):
+                a = alias_of(s.value)
+                for t in s.targets:
+                    key = ast.unparse(t)
+                    if a:
+                        tainted[key] = a
+                    else:
+                        tainted.pop(key, None)
+    rep.ok(rule, "%d class-level mutable objects (%s); no mutation through an instance or an alias"
+           % (len(shared), ", ".join(sorted(shared)) or "none"))
